@@ -1,4 +1,7 @@
 import XcpProps.C01
 import XcpProps.C05
 import XcpProps.C09
+import XcpProps.C10
+import XcpProps.C14
+import XcpProps.C15
 import XcpProps.C19
